@@ -197,6 +197,11 @@ func (s *selectForUpdateExecutor) doExecContext(ctx context.Context, f exec.Call
 	if err != nil {
 		return nil, err
 	}
+	// the rows are read now: whatever follows on this connection (the commit of the transaction opened for the
+	// read, the release of the local locks on a conflict) is a command the driver refuses while a result is unread
+	if result, err = types.BufferResult(result); err != nil {
+		return nil, err
+	}
 
 	// check global lock
 	lockable, err := datasource.GetDataSourceManager(branch.BranchTypeAT).LockQuery(ctx, rm.LockQueryParam{
